@@ -48,10 +48,11 @@ def isIRI : T → Prop
   | .iri _ => True
   | _ => False
 
-/-- A literal carries a language tag only with datatype rdf:langString, and then a non-empty one.
-    (The converse fails for the explicit `"x"^^rdf:langString`, finding D41.) -/
+/-- A literal carries a language tag exactly when its datatype is rdf:langString, and then a non-empty
+    one; the decoders never produce directional tags, so rdf:dirLangString does not occur at all. -/
 def litShape : T → Prop
   | .lit _ dt (some tag) => dt = rdfLangString ∧ tag ≠ []
+  | .lit _ dt none => dt ≠ rdfLangString ∧ dt ≠ rdfDirLangString
   | _ => True
 
 structure WFStmt (trig : Bool) (s : Stmt) : Prop where
